@@ -13,6 +13,8 @@ for m, (d, src) in MODELS.items():
                                   (["--signed-overflow-check"] if m == "sim" else ["--no-signed-overflow-check"])),
                           replay=({"driver": "C04_replay.c", "mode": op, "sources": {"all_except": ["patomic-c11.c"], "plus": ["patomic-sim.c"]},
                                    "args": ["g_pre32", "g_pre64", "val", "v"]} if m == "sim" else None)))
+UNITS.append(dict(id="sim_lifecycle", harness="atomic.c", entry="h_sim_lifecycle", sources=["patomic-sim.c"], enforce=None, replace=[], defines=["MODEL_SIM"], timeout=300, canaries=2,
+                  functions=["p_atomic_thread_init", "p_atomic_thread_shutdown"]))
 REQUIRE_CONFIGURED = ["patomic-c11.c"]
 TECHNIQUE = "CBMC function contracts (DFCC) on every p_atomic_* of patomic-c11.c / -sync.c / -sim.c; rely/guarantee environment step around each atomic builtin (self-referential macro wrappers) resp. monitor rule on the global mutex"
 LEVEL_TEXT = ("For each of the 16 operations in each of the three models, for all operand values: result and stored word equal the C expression on a wrapping "
